@@ -234,6 +234,33 @@ func propC07(c *Ctx) {
 				}
 			}
 			c.Check("R7.5", fmt.Sprintf("%s/block-map-lookup#%d", fnName(bmReg.Root), n), lk.Pos(), good, "a block number the map does not contain is an error; the block is used only when found")
+			// receipts and traces: the block is the one the response itself names, not the one at the
+			// same position of the batch (a server may answer a batch in any order; found by a seeded
+			// change that looked the block up by start+i).  For logs the grouping rule (R7.10) says the same.
+			if name != "(*Client).logs" {
+				own := false
+				kv := stripNum(bmReg.Resolve(stripNum(lk.Index)))
+				for i := 0; i < 4; i++ {
+					if lf, _ := loadedField(kv); lf != nil && lf.Name() == "BlockNum" {
+						own = true
+						break
+					}
+					u, isU := kv.(*ssa.UnOp)
+					if !isU || u.Op != token.MUL {
+						break
+					}
+					al, isAl := u.X.(*ssa.Alloc)
+					if !isAl {
+						break
+					}
+					cv := cellValue(al)
+					if cv == nil {
+						break
+					}
+					kv = stripNum(bmReg.Resolve(stripNum(cv)))
+				}
+				c.Check("R7.5", fmt.Sprintf("%s/block-map-lookup#%d-by-reported-number", fnName(bmReg.Root), n), lk.Pos(), own, "the block data is attached to is looked up by the block number the response element reports")
+			}
 		})
 		if n == 0 {
 			c.Violation("R7.5", fnName(fn)+"/block-map-lookup", fn.Pos(), "no `b, ok := bm[n]` look-up found")
